@@ -18,7 +18,7 @@ def run(ctx):
     scen += wlfam.line_scenarios(rng, quick, None if quick else wlfam.shipped_lists(ctx))
     files, cells, leaves = wlfam.run_scenarios(ctx, scen, "c04")
     verdicts, decided = wlfam.validate(ctx, files)
-    too_few = decided < max(5, cells // 5)
+    too_few = decided < max(5, cells // 10)
     ctx.evaluations = leaves
     ctx.nontrivial = decided
     ctx.cover.update(cells=cells, leaves=leaves, cells_with_exact_distribution=decided)
